@@ -65,9 +65,10 @@ pub fn gen(ctx: &mut Ctx) {
     }
     let n = if ctx.thorough { 200 } else { 30 };
     for i in 0..n {
-        match i % 3 {
+        match i % 4 {
             0 => one(ctx, i, MemoryStore::new()),
             1 => one(ctx, i, RefStore::new(d_full_pub)),          // stores the user handle only on request: non-discoverable credentials exist
+            2 => one(ctx, i, RefStore::new(d_forced_pub)),
             _ => one(ctx, i, RefStore::new(d_non_pub)),
         }
     }
@@ -92,15 +93,19 @@ fn one<S: Inner + 'static>(ctx: &mut Ctx, i: usize, inner: S) {
         emit(ctx, "info:debug", &[], format!("{:?}", info).as_bytes());
         let prf_in = |ctx: &mut Ctx| AuthenticationExtensionsPrfInputs { eval: Some(AuthenticationExtensionsPrfValues { first: ctx.rng.bytes_in(1, 40).into(), second: if ctx.rng.bool() { Some(ctx.rng.bytes(8).into()) } else { None } }), eval_by_credential: None };
         let mut ids: Vec<Vec<u8>> = vec![];
+        // one account of the case registers more than once (a store that can list by RP sees the earlier credential)
+        let returning_user = ctx.rng.bytes_in(1, 16);
         for step in 0..ctx.rng.range(2, 5) {
             // --- WebAuthn registration
             let opts = webauthn::CredentialCreationOptions { public_key: webauthn::PublicKeyCredentialCreationOptions {
                 rp: webauthn::PublicKeyCredentialRpEntity { id: Some("example.com".into()), name: "rp".into() },
-                user: webauthn::PublicKeyCredentialUserEntity { id: ctx.rng.bytes_in(1, 16).into(), display_name: "d".into(), name: "n".into() },
+                user: webauthn::PublicKeyCredentialUserEntity { id: if step % 2 == 0 { returning_user.clone() } else { ctx.rng.bytes_in(1, 16) }.into(), display_name: "d".into(), name: "n".into() },
                 challenge: ctx.rng.bytes(32).into(),
                 pub_key_cred_params: vec![PublicKeyCredentialParameters { ty: PublicKeyCredentialType::PublicKey, alg: coset::iana::Algorithm::ES256 }],
                 timeout: None, exclude_credentials: if step == 2 && !ids.is_empty() { Some(vec![PublicKeyCredentialDescriptor { ty: PublicKeyCredentialType::PublicKey, id: ids[0].clone().into(), transports: None }]) } else { None },
-                authenticator_selection: None, hints: None, attestation: Default::default(), attestation_formats: None,
+                // the returning account asks for discoverable credentials (its handle is stored with them)
+                authenticator_selection: if step % 2 == 0 { Some(webauthn::AuthenticatorSelectionCriteria { authenticator_attachment: None, resident_key: Some(webauthn::ResidentKeyRequirement::Required), require_resident_key: true, user_verification: Default::default() }) } else { None },
+                hints: None, attestation: Default::default(), attestation_formats: None,
                 extensions: Some(AuthenticationExtensionsClientInputs { cred_props: Some(true), prf: Some(prf_in(ctx)), prf_already_hashed: None }) } };
             let origin = Url::parse(url).unwrap();
             let res = guarded(|| crate::env::block_on(client.register(&origin, opts, DefaultClientData)));
@@ -203,11 +208,15 @@ fn one<S: Inner + 'static>(ctx: &mut Ctx, i: usize, inner: S) {
             Some(Err(e)) => { emit(ctx, "error:u2f", &secrets, format!("{:?}", e).as_bytes()); }
             None => { emit(ctx, "panic", &secrets, b"panic"); }
         }
-        let res = guarded(|| crate::env::block_on(U2fApi::authenticate(client.authenticator(), AuthenticationRequest { parameter: AuthenticationParameter::EnforceUserPresence, challenge, application, key_handle: handle.clone() }, 7, Flags::UP)));
-        match res {
-            Some(Ok(r)) => { emit(ctx, "u2f-authenticate:raw", &secrets, &r.encode()); }
-            Some(Err(e)) => { emit(ctx, "error:u2f", &secrets, format!("{:?}", e).as_bytes()); }
-            None => { emit(ctx, "panic", &secrets, b"panic"); }
+        // every control byte, with and without reported presence
+        for (parameter, flags) in [(AuthenticationParameter::EnforceUserPresence, Flags::UP), (AuthenticationParameter::DontEnforceUserPresence, Flags::UP),
+            (AuthenticationParameter::DontEnforceUserPresence, Flags::empty()), (AuthenticationParameter::CheckOnly, Flags::UP)] {
+            let res = guarded(|| crate::env::block_on(U2fApi::authenticate(client.authenticator(), AuthenticationRequest { parameter, challenge, application, key_handle: handle.clone() }, 7, flags)));
+            match res {
+                Some(Ok(r)) => { emit(ctx, "u2f-authenticate:raw", &secrets, &r.encode()); }
+                Some(Err(e)) => { emit(ctx, "error:u2f", &secrets, format!("{:?}", e).as_bytes()); }
+                None => { emit(ctx, "panic", &secrets, b"panic"); }
+            }
         }
         ctx.line("sec.end", "-");
 }
